@@ -519,6 +519,13 @@ func main() {
 		defer r.stop()
 		class, value := r.call(os.Args[2], hx.UnHex(os.Args[3]), arg)
 		fmt.Printf("%s\t%s\n", class, value)
+	case "files":
+		fs := flag.NewFlagSet("files", flag.ExitOnError)
+		seed := fs.Uint64("seed", 0, "seed")
+		n := fs.Int("n", 100, "number of files")
+		dir := fs.String("dir", "", "output directory")
+		_ = fs.Parse(os.Args[2:])
+		writeFiles(*seed, *n, *dir)
 	case "targets":
 		for _, t := range targets {
 			fmt.Printf("%s\t%v\n", t.name, t.modelled)
